@@ -13,7 +13,7 @@ from vv.core import Result, exc_violation, innermost_is_harness
 from vv.util import deq, getp, put, tree_leaves
 
 ID = 'C12'
-CASES = {'quick': 200, 'thorough': 3000}
+CASES = {'quick': 500, 'thorough': 30000}
 RULE = ('(flags) Hypothesis draws 2..7 leaves at depth 1..3 with per-leaf _emit '
         'flags, kinds int / quantity (update in a compatible other unit) / '
         'custom _serializer, a store_schema override tree with _emit on '
